@@ -23,7 +23,9 @@ RULE = ("a case = one generated Var tree with its ops: enc (Json::encode / Xdl::
 TRUSTED = ["tools/props/c05.py generators and the python3 oracles (json.loads of the encoder output; expected dump computed from the tree)",
            "lean/AslModel/Dtoa.lean as the meaning of snprintf(\"%.Pg\") and lean/AslModel/Strtod.lean as the meaning of atof "
            "(both compared with glibc on every number of every run)",
-           "tools/props/c06.py translate(): the decoder model's int/atof split and \\u buffer sizes are read from src/Xdl.cpp into lean/Gen/XdlGen.lean"]
+           "tools/props/c06.py translate(): the decoder model's int/atof split and \\u buffer sizes are read from src/Xdl.cpp into lean/Gen/XdlGen.lean",
+           "tools/props/c05.py translate_enc(): regular expressions reading the %.Pg formats, the new_string switch, the flush test, the Xdl::read sizes and the snprintf bounds "
+           "from src/Xdl.cpp into lean/Gen/XdlEncGen.lean (raises on anything unrecognised)"]
 ASSUMPTIONS = [
     "H1: glibc snprintf(\"%.17g/%.15g/%.9g/%.7g\") prints the correctly rounded decimal in C-locale %g layout (model: AslModel.Dtoa.fmtG; "
     "K compares every generated number byte for byte)",
@@ -741,13 +743,20 @@ LEVEL_TEXT = ("Proved in Lean 4 about the executable model of XdlEncoder/Xdl::wr
               "bit-for-bit clauses, conditional on H2d/H2f = 'atof of the 17/9-digit lexeme is the number', a statement about libc), fmtG_H1 and "
               "fmtG_H1v (PROVED for the formatter the driver runs: Dtoa.fmtG prints an RFC number whose decimal value is the double's value "
               "rounded half-even to P digits, all three %g layouts, exact over Q - so no theorem is vacuous for that instance and 'denotes the "
-              "same value' is a statement about values). The model is tied to the code by the correspondence check "
+              "same value' is a statement about values), double_roundtrip_value (every finite double, default mode, under H1v only: what comes back is "
+              "the 17-digit lexeme through atof or - integral doubles, -0.0 - an int that IS the decimal value of that lexeme, which is the double rounded to "
+              "17 digits; a zero comes back as 0). G: gen_number_formats, gen_escape_table (+ gen_string_escaping_exact, gen_u_escape_fits), gen_flush, "
+              "gen_read_sizes, number_buffer_fits_partial - the model's precisions, its escByte for all 256 bytes, its flush threshold and read sizes ARE what "
+              "translate_enc reads from src/Xdl.cpp on every check (Gen/XdlEncGen.lean), so a changed format, escape or threshold breaks a proof. The model is tied to the code by the correspondence check "
               "under ASan (encode bytes in 8 modes incl. every kind of $type, decode(encode), write/read through files slid across the 16382/16000 "
               "boundaries, nesting 999/1000/1001) and python3 json parses every JSON-mode output.")
 LEVEL_NOTE = ("Partial / not proved: (1) H2d and H2f (17 resp. 9 digits identify a double/float through atof) are hypotheses - `def "
               "double_roundtrip_full` states H2d for the concrete Dtoa.fmtG/Strtod.atofBits; K and the python oracle exercise it on every "
               "generated number (denormals, +-DBL_MAX, -0, powers of two +-1ulp, random bits). (2) Strtod.atofBits is proved exact "
-              "on integer lexemes only (atof_int_exact), not correctly rounded in general. Same/SameX need distinct keys per object (what Dic "
+              "on integer lexemes only (atof_int_exact), not correctly rounded in general. (3) number_buffer_fits_full (no %.17g/%.9g text is truncated by the snprintf bounds 27/17 read "
+              "from the source) is a def, proved part number_buffer_fits_partial (27 > 24, 17 > 16; that 24/16 bound fmtG needs an exponent bound on Dtoa.sigDigits, K only). "
+              "(4) exactness of the int path beyond 'value of the lexeme' (an integral double below 10^9 equals its 17-digit rounding) is not stated separately. "
+              "Same/SameX need distinct keys per object (what Dic "
               "guarantees); with duplicate keys the last value wins (C06 norm_object_lookup). XDL theorems need identifier keys; the member order after an XDL round trip ($type first) is fixed by "
               "SameX only - the K dump sorts members by key, so order is never observed on the implementation. "
               "Fixed in /repo for this property: 737b5bf, 88049f3, a755d42 (found by this check: 1-2 byte files could not be read back), "
